@@ -1,17 +1,319 @@
 /-
-  TE.Driver.Rank — protocol adapters of the Rank family (see TE/Driver/Count.lean for the conventions).
+  TE.Driver.Rank — protocol adapters of the Rank family (see TE/Driver/Count.lean for the conventions):
+  unpack tensors, perform the shape checks of the real `_input_check`s, call the typed model
+  (TE/Model/Rank.lean) or the textbook definition (TE/Spec/Rank.lean, `spec.*` requests).
 -/
 import TE.Driver.Fam
+import TE.Model.Rank
+import TE.Spec.Rank
 namespace TE.Driver
-open TE
+open TE TE.Rank
 
-/-- (functional name, class name, configured family) — sufficient-statistic / cache-all classes. -/
-def rankFams : List (String × String × (Args → Except String Fam)) := []
+namespace RankA
+
+def io (a : Args) : Except Err (T × T) := liftP do
+  let i ← a.tensor "input"; let t ← a.tensor "target"; pure (i, t)
+
+def ints (d : List Q) : Except String (List Int) :=
+  d.mapM fun q => match qToInt? q with
+    | some n => .ok n | none => .error "non-integer entry"
+
+/-- `k=` : absent / `none` ↦ none, else an integer. -/
+def kOf (a : Args) : Except String (Option Int) :=
+  match a.get? "k" with
+  | none | some (.s "none") => .ok none
+  | some (.s s) => match s.toInt? with | some n => .ok (some n) | none => .error "k not an int"
+  | _ => .error "k not an int"
+
+def natOfK (k : Option Int) : Option Nat := k.map Int.toNat
+
+def numTasks (a : Args) : Except String Nat := do
+  match a.get? "num_tasks" with
+  | none => pure 1
+  | _ => a.nat "num_tasks"
+
+/-- scalar | per-task vector rendering: a 1-D input gives a 0-dim result. -/
+def renderTasksX (oneD : Bool) (v : List XQ) : String :=
+  if oneD then showScalarX (v.headD .nan) else showVecX v
+
+/-- rows of a 1-D (one task) or 2-D (tasks × samples) tensor. -/
+def taskRows (x : T) : List (List Q) := if x.ndim == 1 then [x.data] else x.rows
+
+/-! hit rate / reciprocal rank -/
+
+def hitStat (k : Option Int) (a : Args) : Except Err (List Q) := do
+  let (i, t) ← io a
+  if t.ndim != 1 then throw .value
+  if i.ndim != 2 then throw .value
+  if i.shape.head? != t.shape.head? then throw .value
+  let tg ← liftP (ints t.data)
+  hitRate i.rows (i.shape[1]?.getD 0) tg k
+
+def rrStat (k : Option Int) (a : Args) : Except Err (List Q) := do
+  let (i, t) ← io a
+  if t.ndim != 1 then throw .value
+  if i.ndim != 2 then throw .value
+  if i.shape.head? != t.shape.head? then throw .value
+  let tg ← liftP (ints t.data)
+  reciprocalRank i.rows tg k
+
+def listPack (stat : Args → Except Err (List Q)) : Pack :=
+  ⟨List Q, additive (listAcc Q) stat (fun l => .ok (showVecQ l))⟩
+
+def packHitRate (cfg : Args) : Except String Pack :=
+  match kOf cfg with
+  | .ok k => .ok (listPack (hitStat k))
+  | .error m => .error m
+def packReciprocalRank (cfg : Args) : Except String Pack :=
+  match kOf cfg with
+  | .ok k => .ok (listPack (rrStat k))
+  | .error m => .error m
+
+def fnHitRate (a : Args) : Except Err String := do
+  let k ← liftP (kOf a); let r ← hitStat k a; pure (showVecQ r)
+def fnReciprocalRank (a : Args) : Except Err String := do
+  let k ← liftP (kOf a); let r ← rrStat k a; pure (showVecQ r)
+
+/-- textbook hit rate / reciprocal rank on valid inputs (rank by explicit sorting). -/
+def specRanks (a : Args) : Except Err (List Nat) := do
+  let (i, t) ← io a
+  let tg ← liftP (ints t.data)
+  (i.rows.zip tg).mapM fun (p : List Q × Int) =>
+    if p.2 < (0 : Int) then .error .other else
+    match Spec.Rank.rankOf p.1 p.2.toNat with
+    | some r => .ok r
+    | none => .error .other
+
+def specHitRate (a : Args) : Except Err String := do
+  let k ← liftP (kOf a); let rs ← specRanks a
+  pure (showVecQ (rs.map (Spec.Rank.hit (natOfK k))))
+def specReciprocalRank (a : Args) : Except Err String := do
+  let k ← liftP (kOf a); let rs ← specRanks a
+  pure (showVecQ (rs.map (Spec.Rank.rr (natOfK k))))
+
+/-! retrieval precision / recall (functional) -/
+
+def retrievalFn (kind : Kind) (a : Args) : Except Err String := do
+  let k ← liftP (kOf a); let limit := a.bool "limit_k_to_size" false
+  let nt ← liftP (numTasks a)
+  if !paramOk k limit then throw .value
+  let (i, t) ← io a
+  if i.shape != t.shape then throw .value
+  if nt == 1 && i.ndim != 1 then throw .value
+  if nt != 1 && (i.ndim != 2 || i.shape.head? != some nt) then throw .value
+  let kn := natOfK k
+  let rows := (taskRows i).zip (taskRows t)
+  let vals := rows.map fun p =>
+    match kind with
+    | .precision => precisionPairs kn limit (p.1.zip p.2)
+    | .recall => recallPairs kn (p.1.zip p.2)
+  pure (renderTasksX (i.ndim == 1) vals)
+
+def specRetrievalFn (kind : Kind) (a : Args) : Except Err String := do
+  let k ← liftP (kOf a); let limit := a.bool "limit_k_to_size" false
+  let (i, t) ← io a
+  let kn := natOfK k
+  let rows := (taskRows i).zip (taskRows t)
+  let vals := rows.map fun p =>
+    match kind with
+    | .precision => Spec.Rank.precision kn limit (p.1.zip p.2)
+    | .recall => Spec.Rank.recall kn (p.1.zip p.2)
+  pure (renderTasksX (i.ndim == 1) vals)
+
+/-! RetrievalPrecision / RetrievalRecall classes -/
+
+def parseAction (s : String) : Action :=
+  match s with
+  | "neg" => .neg | "pos" => .pos | "skip" => .skip | "err" => .err | _ => .other
+
+def retrievalCfg (kind : Kind) (cfg : Args) : Except String RCfg := do
+  let k ← kOf cfg; let limit := cfg.bool "limit_k_to_size" false
+  if !paramOk k limit then throw "constructor raises ValueError"
+  let nq ← (match cfg.get? "num_queries" with | none => pure 1 | _ => cfg.nat "num_queries")
+  pure { kind, k := natOfK k, limit, numQueries := nq,
+         action := parseAction (cfg.strD "empty_target_action" "neg"),
+         isMacro := cfg.strD "avg" "none" == "macro" }
+
+def retrievalImpl (c : RCfg) : Impl Args RState String where
+  init := rInit c
+  upd st a := do
+    let (i, t) ← io a
+    if i.shape != t.shape then throw .value
+    if i.ndim != 1 then throw .value
+    let ix ← liftP (a.tensor? "indexes")
+    let ix ← (match ix with
+      | none => pure none
+      | some x => do let d ← liftP (ints x.data); pure (some d))
+    -- boolean-mask indexing with a mask of another length raises IndexError
+    if c.numQueries != 1 && (ix.map (·.length)).getD i.data.length != i.data.length then throw .index
+    rUpdate c st (i.data.zip t.data) ix
+  mrg st others := rMerge st others
+  out st := do
+    match ← rCompute c st with
+    | .inl vs => pure (showVecX vs)
+    | .inr v => pure (showScalarX v)
+
+def packRetrieval (kind : Kind) (cfg : Args) : Except String Pack :=
+  match retrievalCfg kind cfg with
+  | .ok c => .ok ⟨RState, retrievalImpl c⟩
+  | .error m => .error m
+
+/-! click-through rate -/
+
+/-- `weights=`: tensor, scalar literal, or absent/`none` (= 1.0) -/
+inductive W where | tensor (t : T) | scalar (q : Q)
+
+def weightOf (a : Args) (key : String) : Except String W :=
+  match a.get? key with
+  | none | some (.s "none") => .ok (.scalar 1)
+  | some (.t x) => .ok (.tensor x)
+  | some (.s s) => do pure (.scalar (← parseQ s))
+  | _ => .error s!"bad {key}"
+
+def eps32 : Q := 1 / ((2 ^ 126 : Nat) : Q)
+def eps64 : Q := 1 / ((2 ^ 1022 : Nat) : Q)
+
+def ctrStat (nt : Nat) (a : Args) : Except Err (List (Q × Q)) := do
+  let i ← liftP (a.tensor "input")
+  let w ← liftP (weightOf a "weights")
+  if i.ndim != 1 && i.ndim != 2 then throw .value
+  if (match w with | .tensor x => x.shape != i.shape | _ => false) then throw .value
+  if nt == 1 && i.ndim > 1 then throw .value
+  if nt != 1 && (i.ndim == 1 || i.shape.head? != some nt) then throw .value
+  match w with
+  | .tensor x => pure (((taskRows i).zip (taskRows x)).map fun p => ctrUpdate p.1 p.2)
+  | .scalar q => pure ((taskRows i).map fun r => ctrUpdateScalar r q)
+
+def fnCtr (a : Args) : Except Err String := do
+  let nt ← liftP (numTasks a)
+  let s ← ctrStat nt a
+  let i ← liftP (a.tensor "input")
+  pure (renderTasksX (i.ndim == 1) (s.map fun p => ctrCompute eps32 p.1 p.2))
+
+def famCtr (cfg : Args) : Except String Fam := do
+  let nt ← numTasks cfg
+  if nt < 1 then throw "constructor raises ValueError"
+  pure {
+    stat := fun a => do
+      let s ← ctrStat nt a
+      pure [s.map (·.1), s.map (·.2)]
+    outA := fun p =>
+      .ok (showVecX (((part p 0 nt).zip (part p 1 nt)).map fun q => ctrCompute eps64 q.1 q.2)) }
+
+def specCtr (a : Args) : Except Err String := do
+  let i ← liftP (a.tensor "input")
+  let w ← liftP (weightOf a "weights")
+  let rows := taskRows i
+  let ws := match w with
+    | .tensor x => taskRows x
+    | .scalar q => rows.map fun r => r.map fun _ => q
+  pure (renderTasksX (i.ndim == 1) ((rows.zip ws).map fun p =>
+    if p.2.sum = 0 then .val 0 else .val (Spec.Rank.ctr p.1 p.2)))
+
+/-! weighted calibration -/
+
+def wcStat (nt : Nat) (a : Args) : Except Err (List (Q × Q)) := do
+  let (i, t) ← io a
+  let w ← liftP (weightOf a "weight")
+  if i.shape != t.shape then throw .value
+  if nt == 1 && i.ndim > 1 then throw .value
+  if nt != 1 && (i.ndim == 1 || i.shape.head? != some nt) then throw .value
+  match w with
+  | .scalar q => pure (((taskRows i).zip (taskRows t)).map fun p => wcUpdateScalar p.1 p.2 q)
+  | .tensor x =>
+    if x.shape != i.shape then throw .value
+    pure (((taskRows i).zip ((taskRows t).zip (taskRows x))).map fun p => wcUpdate p.1 p.2.1 p.2.2)
+
+def fnWc (a : Args) : Except Err String := do
+  let nt ← liftP (numTasks a)
+  let s ← wcStat nt a
+  let i ← liftP (a.tensor "input")
+  pure (renderTasksX (i.ndim == 1) (s.map fun p => xdiv p.1 p.2))
+
+def famWc (cfg : Args) : Except String Fam := do
+  let nt ← numTasks cfg
+  if nt < 1 then throw "constructor raises ValueError"
+  pure {
+    stat := fun a => do
+      let s ← wcStat nt a
+      pure [s.map (·.1), s.map (·.2)]
+    outA := fun p =>
+      let den := part p 1 nt
+      -- `if torch.any(self.weighted_target_sum == 0.0): return torch.empty(0)`
+      if den.any (· == 0) then .ok (showVecQ []) else
+      .ok (showVecX (((part p 0 nt).zip den).map fun q => xdiv q.1 q.2)) }
+
+def specWc (a : Args) : Except Err String := do
+  let (i, t) ← io a
+  let w ← liftP (weightOf a "weight")
+  let rows := taskRows i
+  let ws := match w with
+    | .tensor x => taskRows x
+    | .scalar q => rows.map fun r => r.map fun _ => q
+  pure (renderTasksX (i.ndim == 1) ((rows.zip ((taskRows t).zip ws)).map fun p =>
+    Spec.Rank.calibration p.1 p.2.1 p.2.2))
+
+/-! collisions, frequency -/
+
+def fnNumCollisions (a : Args) : Except Err String := do
+  let i ← liftP (a.tensor "input")
+  if i.ndim != 1 then throw .value
+  match ints i.data with
+  | .error _ => throw .value          -- non-integer dtype
+  | .ok ids => pure (showVecQ ((numCollisions ids).map fun (z : Int) => (z : Q)))
+
+def specNumCollisions (a : Args) : Except Err String := do
+  let i ← liftP (a.tensor "input")
+  let ids ← liftP (ints i.data)
+  pure (showVecQ (ids.map fun x => ((Spec.Rank.collisions ids x : Nat) : Q)))
+
+def fnFrequency (a : Args) : Except Err String := do
+  let i ← liftP (a.tensor "input"); let k ← liftP (a.rat "k")
+  if i.ndim != 1 then throw .value
+  let r ← frequencyAtK i.data k
+  pure (showVecQ r)
+
+def specFrequency (a : Args) : Except Err String := do
+  let i ← liftP (a.tensor "input"); let k ← liftP (a.rat "k")
+  pure (showVecQ (i.data.map (Spec.Rank.frequency k)))
+
+end RankA
+
+/-- (functional name, class name, configured family) — sufficient-statistic / cache-all classes.
+    The functionals of these two return a 0-dim tensor for one task where the class returns shape
+    `(num_tasks,)` (and use another `eps` / empty-result convention), so the functional requests are
+    served from `rankFns`; the family's own functional name is the class-shaped view. -/
+def rankFams : List (String × String × (Args → Except String Fam)) := [
+  ("click_through_rate.state", "ClickThroughRate", RankA.famCtr),
+  ("weighted_calibration.state", "WeightedCalibration", RankA.famWc)
+]
 
 /-- (class name, packaged class model) — classes that are not `additive` (own state machine). -/
-def rankPacks : List (String × (Args → Except String Pack)) := []
+def rankPacks : List (String × (Args → Except String Pack)) := [
+  ("HitRate", RankA.packHitRate),
+  ("ReciprocalRank", RankA.packReciprocalRank),
+  ("RetrievalPrecision", RankA.packRetrieval .precision),
+  ("RetrievalRecall", RankA.packRetrieval .recall)
+]
 
 /-- (request name, handler) — functionals without a class twin and `spec.*` oracles. -/
-def rankFns : List (String × (Args → Except Err String)) := []
+def rankFns : List (String × (Args → Except Err String)) := [
+  ("hit_rate", RankA.fnHitRate),
+  ("reciprocal_rank", RankA.fnReciprocalRank),
+  ("retrieval_precision", RankA.retrievalFn .precision),
+  ("retrieval_recall", RankA.retrievalFn .recall),
+  ("click_through_rate", RankA.fnCtr),
+  ("weighted_calibration", RankA.fnWc),
+  ("num_collisions", RankA.fnNumCollisions),
+  ("frequency_at_k", RankA.fnFrequency),
+  ("spec.hit_rate", RankA.specHitRate),
+  ("spec.reciprocal_rank", RankA.specReciprocalRank),
+  ("spec.retrieval_precision", RankA.specRetrievalFn .precision),
+  ("spec.retrieval_recall", RankA.specRetrievalFn .recall),
+  ("spec.click_through_rate", RankA.specCtr),
+  ("spec.weighted_calibration", RankA.specWc),
+  ("spec.num_collisions", RankA.specNumCollisions),
+  ("spec.frequency_at_k", RankA.specFrequency)
+]
 
 end TE.Driver
